@@ -23,6 +23,8 @@ structure St where
   rest : List UInt8 := []
   /-- array variables `av`: slot, element type, elements (the same value is written by every `wv`) -/
   vars : List (Nat × Ty × List Nat) := []
+  /-- after `readerf` on a Socket: the pending pieces (`rest` is kept equal to their concatenation) -/
+  pieces : Option (List (List UInt8)) := none
 
 def parseKind : String → Option Kind
   | "sb" => some .sb | "file" => some .file | "sock" => some .sock | _ => none
@@ -48,6 +50,18 @@ def hexW (w v : Nat) : String := hex (leBytes w v).reverse
 def chunks (w : Nat) (bs : List UInt8) : List Nat :=
   if w = 0 then [] else
   (List.range (bs.length / w)).map fun i => beNat ((bs.drop (i * w)).take w)
+
+/-- one read operation: a Socket reader fed in pieces (`readerf`) runs it through the receive loop over the pending pieces
+    (`readOpFrag`; theorems `C16.socket_read_frag_eq_flat`, `C16.socket_read_fragment_independent`), every other reader
+    on the remaining bytes -/
+def doRead (st : St) (k : Kind) (op : ROp) : St × RVal :=
+  match st.pieces with
+  | some ps =>
+    let r := readOpFrag st.re ps op
+    ({ st with re := r.1, pieces := some r.2.1, rest := r.2.1.flatten }, r.2.2)
+  | none =>
+    let r := readOp k st.re st.rest op
+    ({ st with re := r.1, rest := r.2.1 }, r.2.2)
 
 def doWrite (st : St) (k : Kind) (op : WOp) : St × String :=
   let r := writeOp k st.we op
@@ -83,12 +97,14 @@ def step (st : St) (ts : List String) : St × String :=
     | some e => ({ st with reading := true, re := e, rest := st.out }, s!"ok {st.out.length}")
   | "readerf" :: es :: cuts =>
     -- the reader's peer delivers the bytes in pieces cut at the given offsets (a Socket reader; nothing to cut for the
-    -- other classes): the model has no notion of pieces — what is read must not depend on them (K only), so as `reader`
+    -- other classes): the reads then go through the receive loop over those pieces (`doRead`)
     if cuts.any (fun c => c.isEmpty ∨ c.length > 9 ∨ !c.all Char.isDigit) then (st, "bad-op") else
     if st.reading then (st, "closed") else
     match parseEndian (defaultR k) es with
     | none => (st, "bad-op")
-    | some e => ({ st with reading := true, re := e, rest := st.out }, s!"ok {st.out.length}")
+    | some e =>
+      let ps := if k == .sock then some (cutPieces (cuts.map String.toNat!) st.out) else none
+      ({ st with reading := true, re := e, rest := st.out, pieces := ps }, s!"ok {st.out.length}")
   | ["endian", es] =>
     if st.reading then (st, "closed") else
     match parseEndian st.we es with
@@ -223,8 +239,8 @@ def step (st : St) (ts : List String) : St × String :=
       -- File/Socket `>> bool` of a byte other than 0/1 has no defined meaning in C++: not exercised
       else if k != .sb ∧ t == .b ∧ st.rest.getD 0 0 > 1 then (st, "na-bool")
       else
-        match readOp k st.re st.rest (.scalar t) with
-        | (e, rest, .val _ v) => ({ st with re := e, rest := rest }, hexW (sizeofT t) v)
+        match doRead st k (.scalar t) with
+        | (st', .val _ v) => (st', hexW (sizeofT t) v)
         | _ => (st, "bad-op")
   | ["rd", cls, tys, ns] =>  -- File/Socket >> Stack<T> / Queue<T> of length n
     if !st.reading then (st, "not-reading") else
@@ -235,9 +251,8 @@ def step (st : St) (ts : List String) : St × String :=
       else if st.rest.length < n * sizeofT t then (st, "eof")
       else if t == .b ∧ (st.rest.take n).any (· > 1) then (st, "na-bool")
       else
-        match readOp k st.re st.rest (.array t n) with
-        | (e, rest, .vals _ vs) =>
-          ({ st with re := e, rest := rest }, hex (vs.flatMap fun v => (leBytes (sizeofT t) v).reverse))
+        match doRead st k (.array t n) with
+        | (st', .vals _ vs) => (st', hex (vs.flatMap fun v => (leBytes (sizeofT t) v).reverse))
         | _ => (st, "bad-op")
     | _, _ => (st, "bad-op")
   | ["ra", tys, ns] =>
@@ -249,9 +264,8 @@ def step (st : St) (ts : List String) : St × String :=
       else if st.rest.length < n * sizeofT t then (st, "eof")
       else if t == .b ∧ (st.rest.take n).any (· > 1) then (st, "na-bool")
       else
-        match readOp k st.re st.rest (.array t n) with
-        | (e, rest, .vals _ vs) =>
-          ({ st with re := e, rest := rest }, hex (vs.flatMap fun v => (leBytes (sizeofT t) v).reverse))
+        match doRead st k (.array t n) with
+        | (st', .vals _ vs) => (st', hex (vs.flatMap fun v => (leBytes (sizeofT t) v).reverse))
         | _ => (st, "bad-op")
     | _, _ => (st, "bad-op")
   | ["rb", ns] =>
@@ -260,8 +274,8 @@ def step (st : St) (ts : List String) : St × String :=
     | none => (st, "bad-op")
     | some n =>
       let n := n % (st.rest.length + 1)
-      match readOp k st.re st.rest (.bytes n) with
-      | (e, rest, .bytes bs) => ({ st with re := e, rest := rest }, hex bs)
+      match doRead st k (.bytes n) with
+      | (st', .bytes bs) => (st', hex bs)
       | _ => (st, "bad-op")
   | ["skip", ns] =>
     if !st.reading then (st, "not-reading") else
@@ -269,8 +283,7 @@ def step (st : St) (ts : List String) : St × String :=
     | none => (st, "bad-op")
     | some n =>
       let n := n % (st.rest.length + 1)
-      let r := readOp k st.re st.rest (.skip n)
-      ({ st with re := r.1, rest := r.2.1 }, "ok")
+      ((doRead st k (.skip n)).1, "ok")
   | ["state"] =>
     -- a stream that was only asked for bytes that are there reports no error; a reader socket has exactly the unread bytes pending
     if k != .sock then (st, "na")
@@ -286,7 +299,9 @@ def step (st : St) (ts : List String) : St × String :=
     if !st.reading then (st, "not-reading") else
     match getString k st.re st.rest with
     | none => (st, "na")
-    | some (s, rest) => ({ st with rest := rest }, s!"{s.length} {hex s}")
+    | some (s, rest) =>
+      -- `>> String` is not run over the pieces: what is left stays pending as one piece
+      ({ st with rest := rest, pieces := st.pieces.map fun _ => if rest.isEmpty then [] else [rest] }, s!"{s.length} {hex s}")
   | _ => (st, "bad-op")
 
 end Driver.C16
